@@ -81,7 +81,8 @@ search_st = st.one_of(
 
 @st.composite
 def _search_case(draw):
-    return {"mode": "search", "q": draw(search_st), "target": draw(st.sampled_from(["/", "/sub", "/echo.sh", "/file.txt"]))}
+    return {"mode": "search", "q": draw(search_st),
+            "target": draw(st.sampled_from(["/", "/sub", "/echo.sh", "/file.txt", "/s\xe9arch.sh", "/d\xe9r \xff", "/caf\xc3\xa9 q.sh"]))}
 
 
 def strategy(tier):
@@ -341,7 +342,9 @@ def _check_search(case, ctx):
     from pygopherd.handlers import HandlerMultiplexer
     q = world.b(case["q"])
     want = q.decode("utf-8", "surrogateescape")
-    spec = [["sub/x.txt", "f", "x\n"], ["file.txt", "f", "f\n"], ["echo.sh", "f", ECHO, 0o755]]
+    spec = [["sub/x.txt", "f", "x\n"], ["file.txt", "f", "f\n"], ["echo.sh", "f", ECHO, 0o755],
+            # search targets whose own selectors hold non-UTF-8 bytes, blanks, valid UTF-8
+            ["s\xe9arch.sh", "f", ECHO, 0o755], ["d\xe9r \xff/x.txt", "f", "x\n"], ["caf\xc3\xa9 q.sh", "f", ECHO, 0o755]]
     d, root = world.build(spec)
     try:
         cfg = drive.make_config(root, "full", **{"handlers.dir.DirHandler::cachetime": "0"})
@@ -349,11 +352,29 @@ def _check_search(case, ctx):
         got = {}
         outs = {}
         orig = HandlerMultiplexer.getHandler
-        for form in SEARCH_FORMS:
+        for form in SEARCH_FORMS + ["gemini-prompt"]:
+            flow = form == "gemini-prompt"
+            if flow:
+                form = "gemini"
             tls, fam = clients.FORMS[form]
             if fam == "gopher" and (q[:1] in (b"+", b"$") or q == b"!"):
                 continue  # 'sel TAB +...' IS a Gopher+ request: plain Gopher cannot express this search string
             seen = []
+            request = clients.encode(form, world.b(target), search=q)
+            if flow:
+                # the way a Gemini client really submits a search: the listing's link goes to the prompt selector, the
+                # client is asked for input (10), sends the same URL with the query, is redirected (30) and follows
+                prompt = b"gemini://" + clients.HOST + b"/GEMINI-QUERY" + clients.pct(world.b(target))
+                r1 = drive.serve(cfg, prompt + b"\r\n", tls=True, realfd=True)
+                qenc = request.split(b"?", 1)[1].rstrip(b"\r\n") if b"?" in request else b""
+                r2 = drive.serve(cfg, prompt + b"?" + qenc + b"\r\n", tls=True, realfd=True)
+                m = re.match(rb"^30 ([^\r\n]*)\r\n$", r2.response)
+                if not r1.response.startswith(b"10 ") or not m:
+                    got["gemini-prompt"] = "<prompt flow broken: %r then %r>" % (r1.response[:40], r2.response[:60])
+                    continue
+                loc = m.group(1)
+                request = (loc if loc.startswith(b"gemini://") else b"gemini://" + clients.HOST + loc) + b"\r\n"
+                form = "gemini-prompt"
 
             def spy(selector, searchrequest, protocol, config, *a, **k):
                 seen.append(searchrequest)
@@ -361,12 +382,12 @@ def _check_search(case, ctx):
             HandlerMultiplexer.getHandler = spy
             try:
                 # the request arrives in TCP segments of 7 bytes on a connection the client keeps open
-                r = drive.serve(cfg, clients.encode(form, world.b(target), search=q), tls=tls, realfd=True, segment=7, open_conn=True)
+                r = drive.serve(cfg, request, tls=tls, realfd=True, segment=7, open_conn=True)
             finally:
                 HandlerMultiplexer.getHandler = orig
             got[form] = seen[0] if seen else "<no handler lookup>"
-            if target == "/echo.sh":
-                pr = clients.parse_response(form, r.response, expect_menu=False)
+            if target.endswith(".sh"):
+                pr = clients.parse_response("gemini" if form == "gemini-prompt" else form, r.response, expect_menu=False)
                 outs[form] = pr.body if pr.ok else b"<not served>"
         special = any(c in q for c in b"+&=%?#;") or any(c >= 0x80 for c in q)
         if special:
@@ -376,12 +397,12 @@ def _check_search(case, ctx):
         fails = []
         for form, g in got.items():
             if g != want:
-                fam = clients.FORMS[form][1]
+                fam = form if form == "gemini-prompt" else clients.FORMS[form][1]
                 fails.append(Fail("search-differs:%s" % fam,
                                   "search string %r reaches the handler as %r through %s (sent per that protocol's own mechanism)" % (want, g, form)))
-        if target == "/echo.sh" and not fails:
+        if target.endswith(".sh") and not fails:
             for form, out in outs.items():
-                fam = clients.FORMS[form][1]
+                fam = form if form == "gemini-prompt" else clients.FORMS[form][1]
                 if fam == "wap":
                     continue  # text output is converted to WML
                 if out != q:
